@@ -903,6 +903,10 @@ func (v *FV) applyContract(fr *Frame, st *State, con *Contract, callee *ssa.Func
 			}
 		}
 	}
+	var coverBefore *Obligation
+	if v.quiet == 0 && len(con.Ensures) > 0 {
+		coverBefore = &Obligation{Name: v.curFnKey + "#cover.before." + mangle(short), Kind: "cover", Fn: v.curFnKey, Pos: pos, Reach: "true", Goal: fmt.Sprintf("(not %s)", st.reach), ScriptLen: len(v.script), Expect: "sat"}
+	}
 	results := v.freshResultsFor(st, sig.Results(), "r_"+mangle(short), con.Fresh)
 	bindResultNames(vars, sig, results)
 	env2 := &ExprEnv{v: v, vars: vars, snap: st.snap, old: pre, pkg: pkg, reach: st.reach, what: "contract of " + name}
@@ -913,6 +917,16 @@ func (v *FV) applyContract(fr *Frame, st *State, con *Contract, callee *ssa.Func
 			continue
 		}
 		v.assume(st.reach, t)
+	}
+	if coverBefore != nil {
+		// vacuity guard: assuming the callee's ensures must not make this point unreachable
+		v.oblNames[v.curFnKey+"#cover."+mangle(short)]++
+		n := v.oblNames[v.curFnKey+"#cover."+mangle(short)]
+		after := &Obligation{Name: fmt.Sprintf("%s#cover.%s.%d", v.curFnKey, mangle(short), n), Kind: "cover", Fn: v.curFnKey, Pos: pos,
+			Text: "the assumed contract of " + short + " does not contradict what is known at the call site (vacuity guard)",
+			Reach: "true", Goal: fmt.Sprintf("(not %s)", st.reach), ScriptLen: len(v.script), Expect: "sat", Before: coverBefore}
+		coverBefore.Name = after.Name + ".before"
+		v.obls = append(v.obls, after)
 	}
 	if con.Persistent && v.con != nil && len(v.con.Crash) > 0 && v.topFrame != nil && v.quiet == 0 {
 		// a crash point: the persistent state as it is now must satisfy the crash invariant
